@@ -394,6 +394,7 @@ Definition omatch (o : out) (x : sout) : Prop :=
   | OutR r, SoR => (0 <= r)%Z
   | OutK b, SoK b' => b = b'
   | OutZ z, SoZ a hv => zmatch a hv z
+  | OutC c, SoA ARefused => (c < 0)%Z
   | OutNone, SoNone => True
   | _, _ => False
   end.
@@ -440,6 +441,69 @@ Proof.
   induction ops as [|o ops IH]; intros st cst R0 R1 P; cbn [mrun srun]; [constructor|].
   cbn [forallb] in P. apply andb_prop in P as [P1 P2].
   pose proof (step_refines st cst o R0 R1 P1) as H.
+  destruct (mstep rnd st o) as [st' x], (sstep rnd cst o) as [cst' y].
+  destruct H as [H0 [H1 H2]]. constructor; [assumption|]. now apply IH.
+Qed.
+
+(* ---- a source re-created from the description it hands out (conversion of the metatype to 's', then
+   mpt_iterator_values): offered by value lists only; the new source stands at the start of the same denoted
+   sequence, the source itself is not touched.  Text and buffer iterators hand out other texts (separator
+   configuration / command string): the operation is specified for the generators. *)
+Definition desc_ok (s : option src) : bool :=
+  match s with Some (SStr _) | Some (SBuf _) => false | _ => true end.
+Definition prim_at (st : option src * option src) (o : op * bool) : bool :=
+  match fst o with
+  | ORedesc => desc_ok (if snd o then snd st else fst st)
+  | _ => prim o
+  end.
+Fixpoint prim_run (st : option src * option src) (ops : list (op * bool)) : bool :=
+  match ops with
+  | [] => true
+  | o :: r => prim_at st o && prim_run (fst (mstep rnd st o)) r
+  end.
+
+Lemma gsim_redesc s : inv s -> desc_ok (Some s) = true ->
+  match it_redesc s with
+  | Some (inr (Some c)) => inv c /\ (exists full rest bad, abs s = CList full rest bad) /\ abs c = s_reset (abs s)
+  | Some (inl e) => (e < 0)%Z /\ exists d p, abs s = CIdx d p
+  | _ => False
+  end.
+Proof.
+  intros I D. destruct s as [m|m|m|m|m|m|m]; cbn [desc_ok] in D; try discriminate; cbn [it_redesc];
+    try (split; [unfold BadType; lia|cbn [abs]; eauto]).
+  cbn [inv] in I. destruct (val_reset_ok m I) as [_ E]. rewrite E. cbn [option_map].
+  pose proof (val_reset_sim m I) as H. destruct (val_reset m) as [r m']. cbn [snd]. destruct H as [I' [A _]].
+  split; [exact I'|]. split; [|exact A]. rewrite abs_val. eauto.
+Qed.
+
+Lemma step_refines_at st cst o : srel (fst st) (fst cst) -> srel (snd st) (snd cst) -> prim_at st o = true ->
+  let (st', x) := mstep rnd st o in
+  let (cst', y) := sstep rnd cst o in
+  srel (fst st') (fst cst') /\ srel (snd st') (snd cst') /\ omatch x y.
+Proof.
+  intros R0 R1 P. destruct o as [o upper].
+  assert (Q : prim (o, upper) = true \/ o = ORedesc).
+  { destruct o; cbn [prim_at fst] in P; auto. }
+  destruct Q as [Q| ->]; [exact (step_refines st cst (o, upper) R0 R1 Q)|].
+  destruct st as [s0 s1], cst as [c0 c1]. cbn [fst snd prim_at] in *.
+  unfold mstep, sstep. cbn [fst snd].
+  assert (RC : srel (if upper then s1 else s0) (if upper then c1 else c0)) by now destruct upper.
+  destruct (if upper then s1 else s0) as [s|], (if upper then c1 else c0) as [c|];
+    cbn [srel] in RC; try contradiction; [|cbn; auto].
+  destruct RC as [I <-].
+  pose proof (gsim_redesc s I P) as H.
+  destruct (it_redesc s) as [[e|[c|]]|]; try contradiction.
+  - destruct H as [E [d [p A]]]. rewrite A. cbn [fst snd srel omatch]. auto.
+  - destruct H as [IC [[full [rest [bad A]]] AC]]. rewrite A in *. cbn [fst snd srel omatch]. repeat split; auto.
+Qed.
+
+Theorem history_refines_desc : forall ops st cst,
+  srel (fst st) (fst cst) -> srel (snd st) (snd cst) -> prim_run st ops = true ->
+  Forall2 omatch (mrun rnd st ops) (srun rnd cst ops).
+Proof.
+  induction ops as [|o ops IH]; intros st cst R0 R1 P; cbn [mrun srun]; [constructor|].
+  cbn [prim_run] in P. apply andb_prop in P as [P1 P2].
+  pose proof (step_refines_at st cst o R0 R1 P1) as H.
   destruct (mstep rnd st o) as [st' x], (sstep rnd cst o) as [cst' y].
   destruct H as [H0 [H1 H2]]. constructor; [assumption|]. now apply IH.
 Qed.
